@@ -142,7 +142,7 @@ let c_case = function
       { c_md = c_mode md; c_lower = c_bool lower; c_specs = c_list c_spec specs; c_root = c_node root;
         c_st0 = c_list c_state st0; c_args = c_list c_str args;
         c_ftab = c_list (c_pair c_str (c_opt c_n)) ftab;
-        c_err = c_opt (function C ("E", [m; p; k]) -> ((c_str m, c_bool p), c_ekind k) | _ -> fail_sx "err") err; c_rem = c_list c_str rem;
+        c_err = c_opt (function C ("E", [m; p; k; a]) -> (((c_str m, c_bool p), c_ekind k), c_list c_str a) | _ -> fail_sx "err") err; c_rem = c_list c_str rem;
         c_st1 = c_list c_state st1; c_warn = c_str warn }
   | _ -> fail_sx "case"
 
@@ -197,9 +197,10 @@ let show_view (c : pcase) : string =
     (show_list show_str rem) (show_list show_state st)
 
 let mask_of_string (s : string) : mask =
-  (* six characters: e(rror presence/class/kind) m(essage) r(emaining) v(alues) c(alled) w(riter), '1' = compare *)
+  (* seven characters: e(rror presence/class/kind) p(ayload = format arguments) m(essage text)
+     r(emaining) v(alues) c(alled) w(riter), '1' = compare *)
   let g i = String.length s > i && s.[i] = '1' in
-  { m_err = g 0; m_msg = g 1; m_rem = g 2; m_val = g 3; m_called = g 4; m_warn = g 5 }
+  { m_err = g 0; m_args = g 1; m_msg = g 2; m_rem = g 3; m_val = g 4; m_called = g 5; m_warn = g 6 }
 
 let () =
   let mask = if Array.length Sys.argv > 1 then mask_of_string Sys.argv.(1) else mask_all in
